@@ -280,6 +280,34 @@ func (tk *vfTokens) addrString(rt *rapid.T) string {
 	}
 }
 
+// swappedArg returns what ends up in a string-typed net error when an address
+// is passed where a network name (or some other word) belongs: host:port, a bare
+// host name / IP literal, a URL-ish or rooted form.
+func (tk *vfTokens) swappedArg(rt *rapid.T) string {
+	switch rapid.SampledFrom([]int{0, 1, 0, 2, 3}).Draw(rt, "swappedForm") {
+	case 0:
+		return net.JoinHostPort(tk.host(rt), strconv.Itoa(vfPort(rt)))
+	case 1:
+		return tk.addrString(rt)
+	case 2:
+		return "tcp://" + net.JoinHostPort(tk.addrHostBare(rt), strconv.Itoa(vfPort(rt)))
+	default:
+		return strings.ToUpper(tk.host(rt)) + ":" + strconv.Itoa(vfPort(rt))
+	}
+}
+
+// addrHostBare: a secret host (name, IPv4 or IPv6 without brackets).
+func (tk *vfTokens) addrHostBare(rt *rapid.T) string {
+	switch rapid.SampledFrom([]int{0, 1, 0, 2}).Draw(rt, "bareHostKind") {
+	case 0:
+		return tk.host(rt)
+	case 1:
+		return tk.ip4(rt).String()
+	default:
+		return tk.ip6(rt).String()
+	}
+}
+
 // vfNamedAddr is a net.Addr whose text is host:port with a host *name* (as the
 // SOCKS / proxy dialers of x/net produce).
 type vfNamedAddr struct{ network, s string }
@@ -342,20 +370,22 @@ const (
 )
 
 var (
-	vfLeafSlots = []string{vfKDNSEmb, vfKAddr, vfKDNS, vfKErrno, vfKParse, vfKPlain, vfKInvalid, vfKUnknown,
-		vfKDNSEmb, vfKAddr, vfKDNS, vfKErrno, vfKPlain, vfKAddr}
+	vfLeafSlots = []string{vfKDNSEmb, vfKUnknown, vfKAddr, vfKDNS, vfKInvalid, vfKErrno, vfKParse, vfKPlain,
+		vfKDNSEmb, vfKAddr, vfKUnknown, vfKDNS, vfKErrno, vfKPlain, vfKInvalid, vfKAddr}
 	vfParentSlots = []string{vfKOp, vfKURL, vfKOp, vfKWrap, vfKOp, vfKSyscall, vfKDNSWrap, vfKURL, vfKOp, vfKWrap, vfKOp}
 )
 
 type vfChain struct {
-	err      error
-	kinds    []string // outermost first
-	descr    []string // outermost first
-	tokens   *vfTokens
-	bearing  bool     // some node carries an address
-	underOp  bool     // an address-bearing node sits below an OpError
-	embedded bool     // a DNS cause text embeds socket addresses
-	urlForms []string // forms of the URL texts of the url.Error nodes
+	err       error
+	kinds     []string // outermost first
+	descr     []string // outermost first
+	tokens    *vfTokens
+	bearing   bool     // some node carries an address
+	underOp   bool     // an address-bearing node sits below an OpError
+	embedded  bool     // a DNS cause text embeds socket addresses
+	urlForms  []string // forms of the URL texts of the url.Error nodes
+	strSecret string   // kind of the string-typed net error whose whole text is / holds a secret ("" = none)
+	netSecret bool     // an OpError carries a secret in its Net field (arguments swapped)
 }
 
 func (c *vfChain) shape() string { return strings.Join(c.descr, " > ") }
@@ -443,26 +473,39 @@ func vfLeaf(rt *rapid.T, c *vfChain) {
 		c.err = d
 		c.kinds, c.descr, c.bearing, c.embedded = []string{vfKDNSEmb}, []string{"DNSError{embedded socket error}"}, true, true
 	case vfKInvalid:
-		e := net.InvalidAddrError("invalid address " + tk.addrString(rt))
+		// string-typed: the text is whatever the producer put there
+		txt := tk.swappedArg(rt)
+		if rapid.SampledFrom([]int{0, 1, 0}).Draw(rt, "invalidPrefix") == 1 {
+			txt = "invalid address " + txt
+		}
+		e := net.InvalidAddrError(txt)
 		if rapid.Bool().Draw(rt, "ptr") {
 			c.err, c.kinds = &e, []string{vfKInvalidP}
 		} else {
 			c.err, c.kinds = e, []string{vfKInvalid}
 		}
-		c.descr, c.bearing = []string{c.kinds[0]}, true
+		c.descr, c.bearing, c.strSecret = []string{c.kinds[0] + "(secret)"}, true, "InvalidAddrError"
 	case vfKUnknown:
-		// the text of an UnknownNetworkError is a network name, not an address
-		e := net.UnknownNetworkError(rapid.SampledFrom([]string{"tcp7", "udp9", "ip:41", "unixish", ""}).Draw(rt, "netName"))
+		// string-typed: the text is whatever reached the net package in the NETWORK
+		// slot - with Dial(addr, "tcp") (arguments swapped) that is the address
+		var e net.UnknownNetworkError
+		d := "(network name)"
+		if rapid.SampledFrom([]int{0, 0, 0, 1}).Draw(rt, "plainNetName") == 1 {
+			e = net.UnknownNetworkError(rapid.SampledFrom([]string{"tcp7", "udp9", "ip:41", "unixish", ""}).Draw(rt, "netName"))
+		} else {
+			e = net.UnknownNetworkError(tk.swappedArg(rt))
+			c.bearing, c.strSecret, d = true, "UnknownNetworkError", "(secret)"
+		}
 		if rapid.Bool().Draw(rt, "ptr") {
 			c.err, c.kinds = &e, []string{vfKUnknownP}
 		} else {
 			c.err, c.kinds = e, []string{vfKUnknown}
 		}
-		c.descr = []string{c.kinds[0]}
+		c.descr = []string{c.kinds[0] + d}
 	case vfKParse:
-		ty := rapid.SampledFrom([]string{"IP address", "CIDR address", "MAC address"}).Draw(rt, "parseType")
-		c.err = &net.ParseError{Type: ty, Text: tk.addrString(rt)}
-		c.kinds, c.descr, c.bearing = []string{vfKParse}, []string{"ParseError{" + ty + "}"}, true
+		ty := rapid.SampledFrom([]string{"IP address", "CIDR address", "MAC address", "port", "network number"}).Draw(rt, "parseType")
+		c.err = &net.ParseError{Type: ty, Text: tk.swappedArg(rt)}
+		c.kinds, c.descr, c.bearing, c.strSecret = []string{vfKParse}, []string{"ParseError{" + ty + "}"}, true, "ParseError"
 	case vfKErrno:
 		e := rapid.SampledFrom(vfErrnos).Draw(rt, "errno")
 		c.err = e
@@ -482,6 +525,16 @@ func vfParent(rt *rapid.T, c *vfChain) {
 	case vfKOp:
 		oe := &net.OpError{Op: rapid.SampledFrom(vfOps).Draw(rt, "op"), Net: rapid.SampledFrom(vfNets).Draw(rt, "net"), Err: child}
 		d := "OpError{" + oe.Op + " " + oe.Net
+		if rapid.SampledFrom([]int{0, 0, 0, 0, 1}).Draw(rt, "netIsAddr") == 1 {
+			// Dial(addr, "tcp"): the stdlib copies the bogus network argument into OpError.Net
+			if u, ok := child.(net.UnknownNetworkError); ok && c.strSecret == "UnknownNetworkError" {
+				oe.Net = string(u)
+			} else {
+				oe.Net = tk.swappedArg(rt)
+			}
+			c.netSecret, c.bearing = true, true
+			d = "OpError{" + oe.Op + " Net=<address>"
+		}
 		if rapid.IntRange(0, 2).Draw(rt, "hasSource") == 0 {
 			oe.Source = tk.netAddr(rt)
 			d += " Source"
@@ -629,6 +682,37 @@ func vfTempLogDir(t *testing.T) {
 	}
 }
 
+// vfStrClasses: classes for chains whose leaf is a string-typed net error (or a
+// ParseError) with a secret as its text.
+func vfStrClasses(unit string, ch *vfChain) []string {
+	var cls []string
+	if ch.netSecret {
+		cls = append(cls, unit+"-OpError.Net-is-address")
+	}
+	if ch.strSecret == "" {
+		return cls
+	}
+	base := unit + "-secret-text-" + ch.strSecret
+	cls = append(cls, base)
+	n := len(ch.kinds)
+	if n == 1 {
+		return append(cls, base+"-bare")
+	}
+	seen := map[string]bool{}
+	for _, k := range ch.kinds[:n-1] {
+		if !seen[k] {
+			seen[k] = true
+			cls = append(cls, base+"-under-"+k)
+		}
+	}
+	if strings.HasPrefix(ch.kinds[n-1], "*") {
+		cls = append(cls, base+"-pointer-form")
+	} else if ch.strSecret != "ParseError" {
+		cls = append(cls, base+"-value-form")
+	}
+	return cls
+}
+
 // vfURLClasses: histogram classes for the URL forms of a case (each once).
 func vfURLClasses(unit string, forms []string) []string {
 	if len(forms) == 0 {
@@ -652,7 +736,7 @@ func vfURLClasses(unit string, forms []string) []string {
 // TestVerifC20Tree: generated error chains.
 func TestVerifC20Tree(t *testing.T) {
 	c := ev.For("C20")
-	c.Rule("tree: error chain of depth 1..5, leaf in {AddrError, DNSError (plain cause / cause embedding the resolver's socket error / go1.23 UnwrapErr), InvalidAddrError, UnknownNetworkError, ParseError, Errno, sentinel}, parents in {OpError with Source/Addr, url.Error (Op from 9 values; URL text in 15 syntactic forms around secrets: absolute with/without port, user info / path / query holding a secret, IPv6 literal, scheme-less name:port and name:port/path, scheme-less ip:port, //host:port/path, bare host, opaque, percent-encoded, upper-case, trailing dot, unparseable), SyscallError, Errorf(%w), DNSError wrapping its child}; secrets = host names over the alphabet '" + vfSecretAlphabet + "' (5..10 letters per label), IPv4/IPv6 literals, DNS server host parts; each chain is evaluated with scrubbing on (no secret — whole host name, single label, IP literal — may occur in the output, compared case-insensitively) and with unsafe logging (output == err.Error()); non-trivial = depth >= 2 with an address-bearing node below an OpError; fingerprint = chain shape + secrets")
+	c.Rule("tree: error chain of depth 1..5, leaf in {AddrError, DNSError (plain cause / cause embedding the resolver's socket error / go1.23 UnwrapErr), InvalidAddrError and UnknownNetworkError in value and pointer form whose text is a secret (host:port, bare host / IPv4 / IPv6, tcp://host:port, upper-case - what arrives when Dial's arguments are swapped; UnknownNetworkError now and then a plain network name), ParseError{Type, Text: secret}, Errno, sentinel}, parents in {OpError with Source/Addr (Net now and then the swapped-in address), url.Error (Op from 9 values; URL text in 15 syntactic forms around secrets: absolute with/without port, user info / path / query holding a secret, IPv6 literal, scheme-less name:port and name:port/path, scheme-less ip:port, //host:port/path, bare host, opaque, percent-encoded, upper-case, trailing dot, unparseable), SyscallError, Errorf(%w), DNSError wrapping its child}; secrets = host names over the alphabet '" + vfSecretAlphabet + "' (5..10 letters per label), IPv4/IPv6 literals, DNS server host parts; each chain is evaluated with scrubbing on (no secret — whole host name, single label, IP literal — may occur in the output, compared case-insensitively) and with unsafe logging (output == err.Error()); non-trivial = depth >= 2 with an address-bearing node below an OpError; fingerprint = chain shape + secrets")
 	c.Assume("strings.Contains over the generated secrets decides a leak; secrets use an alphabet disjoint from every operation/cause word, so a hit cannot be a coincidence")
 	c.Assume("error texts put into plain sentinel leaves and Errorf wrappers are the transport author's own and carry no address (ElideError passes non-network errors through by design)")
 	c.Floor("tree-nontrivial/tree", 0.20)
@@ -662,6 +746,13 @@ func TestVerifC20Tree(t *testing.T) {
 	// url.Error with a scheme-less name:port[/path] URL (net/url reads the host name as the scheme)
 	c.Floor("tree-"+vfURLSchemelessName+"/tree", 0.02)
 	c.Floor("tree-url-unparseable/tree", 0.005)
+	// string-typed net errors whose text is a secret (value and pointer forms), bare and nested
+	c.Floor("tree-secret-text-UnknownNetworkError/tree", 0.06)
+	c.Floor("tree-secret-text-UnknownNetworkError-bare/tree", 0.005)
+	c.Floor("tree-secret-text-UnknownNetworkError-under-OpError/tree", 0.02)
+	c.Floor("tree-secret-text-InvalidAddrError/tree", 0.06)
+	c.Floor("tree-secret-text-ParseError/tree", 0.03)
+	c.Floor("tree-OpError.Net-is-address/tree", 0.05)
 	vfTempLogDir(t)
 	rapid.Check(t, func(rt *rapid.T) {
 		ch := vfGenChain(rt)
@@ -684,6 +775,7 @@ func TestVerifC20Tree(t *testing.T) {
 			cls = append(cls, "pair "+ch.kinds[i]+">"+ch.kinds[i+1])
 		}
 		cls = append(cls, vfURLClasses("tree", ch.urlForms)...)
+		cls = append(cls, vfStrClasses("tree", ch)...)
 		full := ch.err.Error()
 		c.Case(ev.Hash(ch.shape(), strings.Join(ch.tokens.list, ",")), nt, cls, func() any {
 			return map[string]any{"shape": ch.shape(), "secrets": ch.tokens.list, "err.Error()": full, "scrubbed": scrubbed}
@@ -826,10 +918,11 @@ func (tk *vfTokens) loop4(rt *rapid.T) net.IP {
 }
 
 type vfReal struct {
-	kind     string
-	err      error
-	note     string
-	urlForms []string
+	kind      string
+	err       error
+	note      string
+	urlForms  []string
+	strSecret string
 }
 
 // vfRealError performs one real, offline, promptly failing network call on
@@ -837,7 +930,8 @@ type vfReal struct {
 func vfRealError(rt *rapid.T, tk *vfTokens) vfReal {
 	kinds := []string{"dial-loopback-closed", "dial-missing-port", "dial-invalid-port", "dial-unknown-service", "dial-bad-network",
 		"listen-nonlocal", "listen-missing-port", "dial-unresolvable-offline", "resolver-socket-error", "dial-via-resolver-socket-error",
-		"dial-nonlocal-ip4", "dial-nonlocal-ip6", "parse", "lookupaddr", "http-get", "resolve-addr", "http-urlforms", "url-parse", "http-urlforms"}
+		"dial-nonlocal-ip4", "dial-nonlocal-ip6", "parse", "lookupaddr", "http-get", "resolve-addr", "http-urlforms", "url-parse", "http-urlforms",
+		"swapped-args", "bogus-network", "swapped-args"}
 	kind := rapid.SampledFrom(kinds).Draw(rt, "realKind")
 	vfSlowMu.Lock()
 	slow := vfSlowKind[kind]
@@ -866,6 +960,7 @@ func vfRealError(rt *rapid.T, tk *vfTokens) vfReal {
 	t0 := time.Now()
 	var err error
 	var urlForms []string
+	strSecret := ""
 	note := ""
 	switch kind {
 	case "dial-loopback-closed":
@@ -1008,6 +1103,45 @@ func vfRealError(rt *rapid.T, tk *vfTokens) vfReal {
 			resp.Body.Close()
 		}
 		err = e
+	case "swapped-args", "bogus-network":
+		// The two string arguments exchanged (the compiler cannot tell them apart), or
+		// an address-ish / URL-ish word where the network name belongs: fails locally
+		// with UnknownNetworkError(<that string>), bare or inside an OpError.
+		arg := net.JoinHostPort(tk.addrHostBare(rt), port)
+		if kind == "bogus-network" {
+			arg = tk.swappedArg(rt)
+		}
+		netw := rapid.SampledFrom([]string{"tcp", "udp", "tcp4", "ip4:icmp", "unix"}).Draw(rt, "netw")
+		switch rapid.SampledFrom([]string{"Dial", "Listen", "ListenPacket", "ResolveTCPAddr", "DialTimeout", "ResolveUDPAddr", "Dialer.Dial", "ResolveIPAddr", "ListenConfig.Listen"}).Draw(rt, "swappedCall") {
+		case "Dial":
+			c, e := net.Dial(arg, netw)
+			err = closeIf(c, e)
+		case "Listen":
+			l, e := net.Listen(arg, netw)
+			err = closeIf(l, e)
+		case "ListenPacket":
+			pc, e := net.ListenPacket(arg, netw)
+			err = closeIf(pc, e)
+		case "ResolveTCPAddr":
+			_, err = net.ResolveTCPAddr(arg, netw)
+		case "DialTimeout":
+			c, e := net.DialTimeout(arg, netw, 250*time.Millisecond)
+			err = closeIf(c, e)
+		case "ResolveUDPAddr":
+			_, err = net.ResolveUDPAddr(arg, netw)
+		case "Dialer.Dial":
+			c, e := d.Dial(arg, net.JoinHostPort(tk.loop4(rt).String(), port))
+			err = closeIf(c, e)
+		case "ResolveIPAddr":
+			_, err = net.ResolveIPAddr(arg, tk.ip4(rt).String())
+		default:
+			l, e := (&net.ListenConfig{}).Listen(context.Background(), arg, netw)
+			err = closeIf(l, e)
+		}
+		var une net.UnknownNetworkError
+		if errors.As(err, &une) {
+			strSecret = "UnknownNetworkError"
+		}
 	case "url-parse":
 		u, form := tk.urlString(rt)
 		urlForms = append(urlForms, form)
@@ -1022,7 +1156,10 @@ func vfRealError(rt *rapid.T, tk *vfTokens) vfReal {
 		vfSlowMu.Unlock()
 		note = fmt.Sprintf("slow (%v): source disabled for the rest of the process", el.Round(time.Millisecond))
 	}
-	return vfReal{kind: kind, err: err, note: note, urlForms: urlForms}
+	if pe := (*net.ParseError)(nil); strSecret == "" && errors.As(err, &pe) {
+		strSecret = "ParseError"
+	}
+	return vfReal{kind: kind, err: err, note: note, urlForms: urlForms, strSecret: strSecret}
 }
 
 // addrHost: a secret host part (name, IPv4 or bracketed IPv6) for "host:port".
@@ -1063,10 +1200,12 @@ func vfChainInfo(err error) (kinds []string, underOp bool) {
 
 func TestVerifC20Real(t *testing.T) {
 	c := ev.For("C20")
-	c.Rule("real: one real call per case on generated literals — Dial to a closed 127.a.b.c port, Dial/Listen with missing or invalid port, unknown service, bad network, Listen on a non-local literal, names the Go resolver rejects offline (.onion, invalid characters, broken literals, over-long label), a Resolver whose exchange fails at socket level on loopback (DNSError.Err embeds 'read udp a->b'), Dial to a non-local literal, ParseCIDR/ParseMAC/ResolveIPAddr, LookupAddr, http.Get, http Get/Post/Head/Do and url.Parse on URL texts of all forms of 'tree' (the transport connects to a closed loopback port whatever the URL names; scheme-less, opaque and unparseable texts fail before any dial) — optionally wrapped again in OpError / url.Error / Errorf(%w); same two oracles as 'tree'; non-trivial = chain of depth >= 2 with an address-bearing node below an OpError; a call that unexpectedly succeeds or takes > 150 ms is skipped/disabled, never a verdict")
+	c.Rule("real: one real call per case on generated literals — Dial to a closed 127.a.b.c port, Dial/Listen with missing or invalid port, unknown service, bad network, Listen on a non-local literal, names the Go resolver rejects offline (.onion, invalid characters, broken literals, over-long label), a Resolver whose exchange fails at socket level on loopback (DNSError.Err embeds 'read udp a->b'), Dial to a non-local literal, ParseCIDR/ParseMAC/ResolveIPAddr, LookupAddr, Dial / Listen / ListenPacket / DialTimeout / Dialer.Dial / ListenConfig.Listen / ResolveTCPAddr / ResolveUDPAddr / ResolveIPAddr with the address in the network slot (arguments swapped or a URL-ish word; fails locally with UnknownNetworkError(address)), http.Get, http Get/Post/Head/Do and url.Parse on URL texts of all forms of 'tree' (the transport connects to a closed loopback port whatever the URL names; scheme-less, opaque and unparseable texts fail before any dial) — optionally wrapped again in OpError / url.Error / Errorf(%w); same two oracles as 'tree'; non-trivial = chain of depth >= 2 with an address-bearing node below an OpError; a call that unexpectedly succeeds or takes > 150 ms is skipped/disabled, never a verdict")
 	c.Assume("real-error secrets: the generated literals, plus the host part of DNSError.Server when the configured resolver address appears in the error")
 	c.Floor("real-nontrivial/real", 0.15)
 	c.Floor("real-"+vfURLSchemelessName+"/real", 0.01)
+	c.Floor("real-secret-text-UnknownNetworkError/real", 0.05)
+	c.Floor("real-secret-text-ParseError/real", 0.005)
 	vfTempLogDir(t)
 	rapid.Check(t, func(rt *rapid.T) {
 		tk := &vfTokens{}
@@ -1095,6 +1234,8 @@ func TestVerifC20Real(t *testing.T) {
 			cls = append(cls, "real-slow-call")
 		}
 		cls = append(cls, vfURLClasses("real", append(re.urlForms, ch.urlForms...))...)
+		ch.strSecret = re.strSecret
+		cls = append(cls, vfStrClasses("real", ch)...)
 		var de *net.DNSError
 		if errors.As(ch.err, &de) && strings.Contains(de.Err, "->") {
 			cls = append(cls, "real-dns-embedded-socket-error")
